@@ -370,6 +370,16 @@ def main():
         exe_name = f"ctvmodel_{pid.lower()}"
         rc, out, dt_build = lake(cfg.PROPS + [exe_name])
         build_ok = rc == 0
+        if build_ok:
+            # every module of this property compiled although some unit of an imported generated module failed to extract:
+            # a failed unit leaves no definition behind, so nothing this property proves or runs uses it
+            kept = []
+            for k, t in problems:
+                if k == "TIE(extract)":
+                    notes.append(f"extraction failure of a unit this property does not use ignored: {t[:160]}")
+                else:
+                    kept.append((k, t))
+            problems = kept
         if not build_ok:
             # try the model driver alone so that the search can still run
             for d in failing_decls(out, cfg.PROPS):
